@@ -2,7 +2,7 @@
     history of Location operations (several locations, both state kinds)
     through the model, and judges every read against the index-free
     specification (the same abstract fact map searched linearly). *)
-From Verif Require Import Json Outcome Match PatIndex State Location SysOps Query QueryOps QuerySpec.
+From Verif Require Import Json Outcome Match PatIndex State Location SysOps Query QueryOps QuerySpec Events.
 
 Definition classify (e : string) : string :=
   if String.eqb e E_disabled || String.eqb e E_denied || String.eqb e E_capacity ||
@@ -43,9 +43,17 @@ Definition canon_obs (o : json) : json :=
     | _ => j
     end in
   let o2 := fix_list "children" (fix_list "found" o) in
-  match jget "bss" o2 with
-  | Some (JArr b) => JObj (ainsert "bss" (JArr (canon_multiset b)) (jO o2))
-  | _ => o2
+  let o3 := match jget "bss" o2 with
+            | Some (JArr b) => JObj (ainsert "bss" (JArr (canon_multiset b)) (jO o2))
+            | _ => o2
+            end in
+  let o4 := match jget "execs" o3 with
+            | Some (JArr b) => JObj (ainsert "execs" (JArr (canon_multiset b)) (jO o3))
+            | _ => o3
+            end in
+  match jget "values" o4 with
+  | Some (JArr b) => JObj (ainsert "values" (JArr (canon_multiset b)) (jO o4))
+  | _ => o4
   end.
 
 Definition dec_ctx (o : json) : ctx := mkCtx (jfS "rk" o) (jfS "wk" o).
@@ -95,12 +103,43 @@ Definition render (op : lop) (r : lres) : json :=
       res_of o' (fun ch => [("children", json_of_children ch)])
   end.
 
+(** Work tree of an event as the observable: the executed actions (multiset),
+    the values (multiset) and whether the walk completed. *)
+Definition json_of_exec (x : exec_rec) : json :=
+  JObj ([("bs", JObj (x_bs x)); ("code", JStr (x_code x))] ++
+        [("ok", JBool (match x_res x with Ok _ => true | _ => false end)); ("rule", JStr (x_rule x))] ++
+        match x_res x with Ok v => [("val", v)] | _ => [] end)%list.
+
+Definition json_of_walk (w : walk) : json :=
+  match w_disp w with
+  | Err x => if String.eqb x "condition failed" || String.eqb x "action failed" || String.eqb x "action failed*" then
+               JObj [("amb", JBool (w_amb w)); ("execs", JArr (canon_multiset (map json_of_exec (w_execs w))));
+                     ("ok", JBool false); ("stopped", JBool true);
+                     ("values", JArr (canon_multiset (w_values w)))]
+             else JObj [("class", JStr (if String.eqb x E_notfound || String.eqb x E_expired then "other" else classify x));
+                        ("ok", JBool false)]
+  | Panic _ => JObj [("class", JStr "panic"); ("ok", JBool false)]
+  | OutOfFuel => JObj [("class", JStr "hang"); ("ok", JBool false)]
+  | Ok _ => JObj [("amb", JBool false); ("execs", JArr (canon_multiset (map json_of_exec (w_execs w))));
+                  ("ok", JBool true); ("stopped", JBool false);
+                  ("values", JArr (canon_multiset (w_values w)))]
+  end.
+
 (** One operation: new system and the model's observable result. *)
 Definition run_op (sy : system) (o : json) (now : Z) : system * json :=
   if String.eqb (jfS "op" o) "query" then
     let '(sy', r) := sys_query sy (jfS "loc" o) (dec_ctx o) (dec_env o now)
                                (sem_of_table (jget_d "sem" o)) (jnorm (jget_d "query" o)) in
     (sy', res_of r (fun bss => [("bss", json_of_bss bss)]))
+  else if String.eqb (jfS "op" o) "process" then
+    let '(sy', w) := process_event sy (jfS "loc" o) (dec_ctx o) (dec_env o now)
+                                   (sem_of_table (jget_d "sem" o)) (jnorm (jget_d "event" o)) in
+    (sy', json_of_walk w)
+  else if String.eqb (jfS "op" o) "addrule" && (match jget "sem" o with Some _ => true | None => false end) then
+    let '(sy', r) := with_loc sy (jfS "loc" o)
+                              (fun l => loc_add_rule_c (sem_of_table (jget_d "sem" o)) l (dec_ctx o) (dec_env o now)
+                                                       (jfS "id" o) (jnorm (jget_d "rule" o))) in
+    (sy', res_of r (fun i => [("id", JStr i)]))
   else
   match dec_op o with
   | None => (sy, JObj [("class", JStr "unknown-op"); ("ok", JBool false)])
@@ -121,7 +160,7 @@ Definition as_linear (sy : system) : system :=
 
 Definition is_read_op (op : string) : bool :=
   String.eqb op "search" || String.eqb op "event" || String.eqb op "getfact" || String.eqb op "getrule" ||
-  String.eqb op "query".
+  String.eqb op "query" || String.eqb op "process".
 
 (** Known-finding predicates (decidable, on the case). *)
 Fixpoint has_propvar (p : json) : bool :=
@@ -188,6 +227,51 @@ Definition spec_query (sy : system) (o : json) (now : Z) : json :=
       end
   end.
 
+(** An event judged against the specification of C04: the executions are
+    exactly [spec_execs] over the rules the index-free dispatch finds, the
+    conditions read denotationally ([den]); each runs once with its bindings.
+    Histories in which some condition fails or a serial rule's action fails
+    are left to the correspondence (the spec speaks about failing actions of
+    non-serial rules only). *)
+Definition spec_process (sy : system) (o : json) (now : Z) : json :=
+  let name := jfS "loc" o in
+  let c := dec_ctx o in
+  let e := dec_env o now in
+  let sem := sem_of_table (jget_d "sem" o) in
+  let event := jnorm (jget_d "event" o) in
+  let syl := as_linear sy in
+  match sys_get syl name with
+  | None => res_of (@Err unit E_noloc) (fun _ => [])
+  | Some _ =>
+      match find_rules_full syl name c e sem event with
+      | (_, Ok children) =>
+          let cond_o (rid : string) (body : json) (bw : bindings) : outcome (list bindings) :=
+            let b := inject bw event name rid in
+            match jget "condition" body with
+            | None | Some JNull => Ok [b]
+            | Some q => match parse_query sem (parse_fuel q) q with
+                        | Ok pq => den (fun locs p => snd (sys_search_locs name c e syl locs p)) sem pq b
+                        | Err x => Err x
+                        | Panic w => Panic w
+                        | OutOfFuel => OutOfFuel
+                        end
+            end in
+          let cond rid body bw := match cond_o rid body bw with Ok l => l | _ => [] end in
+          let clean :=
+            forallb (fun ch => let '(rid, body, bss) := ch in
+                               forallb (fun bw => match cond_o rid body bw with Ok _ => true | _ => false end) bss &&
+                               negb (rule_serial body) && negb (one_shot (rule_schedule body))) children in
+          if negb clean then JObj [("amb", JBool true); ("ok", JBool true)] else
+          let xs := map (fun t => let '(rid, js, bs) := t in
+                                  mkExec rid js bs (match sem js with Some cd => run_code cd bs | None => Err "unknown script" end))
+                        (spec_execs cond children) in
+          json_of_walk (mkWalk (Ok tt) xs (values_of xs) false)
+      | (_, Err x) => res_of (@Err unit x) (fun _ => [])
+      | (_, Panic w) => res_of (@Panic unit w) (fun _ => [])
+      | (_, OutOfFuel) => res_of (@OutOfFuel unit) (fun _ => [])
+      end
+  end.
+
 Definition kf_of (sy : system) (o : json) : list string :=
   let op := jfS "op" o in
   if String.eqb op "query" then
@@ -199,7 +283,7 @@ Definition kf_of (sy : system) (o : json) : list string :=
     let p := jnorm (jget_d "pattern" o) in
     ((match extract_terms p with [] => ["D8"] | _ => [] end) ++
      (if has_propvar p then ["D9"] else []))%list
-  else if String.eqb op "event" then
+  else if String.eqb op "event" || String.eqb op "process" then
     ((if rules_have_propvar sy then ["D6"] else []) ++
      (if event_risky (jnorm (jget_d "event" o)) then ["D7"] else []))%list
   else [].
@@ -218,7 +302,7 @@ Definition op_risky (sy : system) (o : json) : bool :=
   else if String.eqb op "search" then
     let p := jnorm (jget_d "pattern" o) in
     existsb (fun f => struct_risk p f [] || negb (ground f)) (all_facts sy)
-  else if String.eqb op "event" then
+  else if String.eqb op "event" || String.eqb op "process" then
     let ev := jnorm (jget_d "event" o) in
     negb (ground ev) ||
     existsb (fun f => match jget "rule" f with
@@ -290,10 +374,10 @@ Record acc := mkAcc {
     the caller's order by the linear one.  Arrays are sets for the matcher:
     the bindings of dispatched rules are compared modulo array order. *)
 Definition sort_children (j : json) : json :=
-  match jget "children" j with
-  | Some c => JObj (ainsert "children" (jsort_arrays c) (jO j))
-  | None => j
-  end.
+  fold_left (fun j k => match jget k j with
+                        | Some c => JObj (ainsert k (jsort_arrays c) (jO j))
+                        | None => j
+                        end) ["children"; "execs"; "values"] j.
 
 Definition same_res (m obs : json) : bool :=
   json_eqb (sort_children m) (sort_children (canon_obs obs)).
@@ -311,7 +395,7 @@ Definition step_acc (a : acc) (o : json) : acc :=
       let sy0 := sys_clear_amb (a_sys a) in
       let try now :=
         let '(sy', m) := run_op sy0 o now in
-        let amb := sys_amb sy' || op_risky sy0 o in
+        let amb := sys_amb sy' || op_risky sy0 o || jfB "amb" m in
         if same_res m obs || amb then Some (sy', m, amb) else None in
       let r := match try t with
                | Some x => Some x
@@ -329,8 +413,9 @@ Definition step_acc (a : acc) (o : json) : acc :=
             else if is_read_op (jfS "op" o) && negb amb then
               let spec_res now :=
                 if String.eqb (jfS "op" o) "query" then spec_query sy0 o now
+                else if String.eqb (jfS "op" o) "process" then spec_process sy0 o now
                 else snd (run_op (as_linear sy0) o now) in
-              if same_res (spec_res t) obs then (false, [])
+              if jfB "amb" (spec_res t) || same_res (spec_res t) obs then (false, [])
               else if same_res (spec_res t2) obs then (false, []) else (true, kf_of sy0 o)
             else (false, []) in
           mkAcc sy' (a_k a + 1) None
